@@ -73,7 +73,19 @@ func execC17(hist []int, env *envdfs.Env) (viol []Viol, log string, ops int64, w
 		for _, d := range sim.All {
 			handedBefore[d.ID] = d.Handed
 		}
+		// receive faults (10 x EAGAIN, a hard ENOBUFS, 9 x EINTR) are injected only while
+		// WaitForPendingACKs runs: the other ops' oracles here assume a fault-free socket
+		sim.NoDeviations = false
+		sim.FaultsOnly = true
+		sim.ResetOp()
 		err := c.WaitForPendingACKs()
+		sim.NoDeviations = true
+		faulted := false
+		for _, d := range sim.Devs {
+			if ksim.MustFail(d) {
+				faulted = true
+			}
+		}
 		if len(pending) == 0 {
 			if sim.Receives != recvBefore {
 				fail("C17 wait-with-nothing-pending-receives", "%s with nothing pending performed %d receives (re-waits for ACKs it already consumed)", label, sim.Receives-recvBefore)
@@ -108,6 +120,12 @@ func execC17(hist []int, env *envdfs.Env) (viol []Viol, log string, ops int64, w
 		if firstErr != 0 {
 			if err == nil || !errors.Is(err, syscall.Errno(firstErr)) {
 				fail("C17 wait-wrong-error", "%s consumed an ACK with errno %d (request %d) but returned %v", label, firstErr, pending[firstIdx].Seq, err)
+			}
+		} else if faulted {
+			// the receive failed without consuming the ACK: an error is the right answer and
+			// the unconsumed requests stay pending
+			if err == nil && k != len(pending) {
+				fail("C17 wait-nil-after-receive-fault", "%s returned nil after a failed receive with %d of %d ACKs consumed", label, k, len(pending))
 			}
 		} else {
 			if err != nil {
@@ -221,7 +239,7 @@ func execC17(hist []int, env *envdfs.Env) (viol []Viol, log string, ops int64, w
 	}
 	// drain: every NoWait ACK must be consumable exactly once, in order
 	if !closed {
-		for i := 0; i < 8 && len(pending) > 0; i++ {
+		for i := 0; i < 24 && len(pending) > 0; i++ {
 			ops++
 			waitAcks("final WaitForPendingACKs")
 		}
